@@ -1,4 +1,5 @@
 import Ucan.Driver.Command
+import Ucan.Driver.Glob
 /-!
 Line-protocol driver: one case per input line, one canonical answer per output line.
 Imports models and specs only (core Lean), never lemmas or property files.
@@ -11,6 +12,7 @@ def dispatch (toks : List String) : String :=
     | [] => none
     | t :: _ =>
       if t.startsWith "cmd." then runCommand toks
+      else if t.startsWith "glob." then runGlob toks
       else none
   match r with
   | some s => s
